@@ -1,6 +1,7 @@
 (* Recorded findings for C19 (findings_proposed/C19.txt), as they stand after the repairs of the boolean, safe_area, fps,
    colour, program_start_tc, max_row_count and font-family decoders.  The README acceptance table (Spec/CliSpec.v
-   documented) is still false of the faithful model in two ways; each refutation names concrete (key, JSON value) pairs.
+   documented) is still false of the faithful model in two ways, and the way a value is rejected in a third; each
+   refutation names concrete (key, JSON value) pairs.
    If this file stops compiling a finding is stale, which the check reports as such (it is not a violation). *)
 From Coq Require Import String.
 From TT Require Import Base.Prelude Base.CliTypes Gen.CliUnicode Model.Cli Spec.CliSpec.
@@ -33,6 +34,17 @@ Proof. exists KFps, (JStr (rep 48 4300 ++ T "25/1")). vm_compute. repeat split; 
 Theorem C19_short_family_accepted : accepts KFontStack (JStr (T "a")) = true /\ accepts KFontStack (JStr (T "x, y")) = true.
 Proof. split; reflexivity. Qed.
 
+(* rejection-not-a-value-error: three keys whose value is used before any decoder has looked at its type; the rejection is
+   an AttributeError / TypeError from inside the library instead of the decoders' ValueError.  (stl_reader.program_start_tc
+   and font_stack were two more until they were repaired: C19_example_rejections in Properties/C19.v.) *)
+Theorem C19_config_rejection_is_value_error_refuted :
+  Forall (fun kve => decode (fst (fst kve)) (snd (fst kve)) = Raise (snd kve) /\ snd kve <> EValue /\
+                     trigger_escape (fst (fst kve)) (snd (fst kve)) = true)
+    [(KSccTextAlign, JBool true, EAttribute); (KSccTextAlign, JInt 5, EAttribute); (KSccTextAlign, JArr [JStr (T "left")], EAttribute);
+     (KSccTextAlign, JNull, EAttribute); (KDocumentLang, JInt 5, EType); (KDocumentLang, JBool true, EType);
+     (KLogLevel, JFloat 5 2, EType); (KLogLevel, JArr [], EType); (KLogLevel, JObj [], EType)].
+Proof. repeat constructor; discriminate. Qed.
+
 (* observation (not a separate finding): README does not say what an explicit null means outside the colours; for five
    keys it is "not specified", for the true | false keys and safe_area it is now an error like any other non-boolean /
    non-integer, for scc_reader.text_align it is an uncaught AttributeError *)
@@ -44,3 +56,4 @@ Proof. repeat split; reflexivity. Qed.
 
 Print Assumptions C19_config_accepts_lenient_refuted.
 Print Assumptions C19_config_accepts_rejected_refuted.
+Print Assumptions C19_config_rejection_is_value_error_refuted.
